@@ -36,7 +36,7 @@ TLC_WORKERS = 4
 TRACE_ACTIONS = ("TraceStart", "TraceParseOk", "TraceRetOk", "TraceLoadOk", "TraceFinish", "TraceAccept")
 PROTOCOL_ACTIONS = ("LStart", "LParseErr", "LParseOk", "LCompileErr", "LCompileOk", "LRenderErr", "LoadOk", "LFinish")
 SPEC_ASSUMES = ["KwDerivation", "IdsUnique", "TextsUnique", "FilesSane", "FamiliesCovered", "CellsInhabited",
-                "SpellingOccurs", "SizesStraddle", "TraceComplete"]
+                "SpellingOccurs", "SizesStraddle", "ExpectSane", "TraceComplete"]
 
 
 def outcome(rec):
@@ -103,6 +103,8 @@ class Run:
         self.accepted_keys = set()
         self.panics = []
         self.loaded = 0
+        self.byte_rejects = 0
+        self.ran = 0
 
 
 def judge(run, verdicts, name, recs, cases, v, rejects):
@@ -123,17 +125,30 @@ def judge(run, verdicts, name, recs, cases, v, rejects):
             run.accepted_keys.add(key)
         if o == "ok":
             run.loaded += 1
+        if any(e["e"] == "run" for e in rec["ev"]):
+            run.ran += 1
     run.counts[name] = cnt
     if cnt.get("other"):
         vlib.tool_error("%s: %d records with an event list the recorder should never write" % (name, cnt["other"]))
     nrej_expected = cnt.get("loaderr", 0) + cnt.get("panic", 0)
-    if len(rejects) != nrej_expected:
-        vlib.tool_error("%s: TLC rejected %d runs but %d recorded runs end in a loader refusal or a panic" % (name, len(rejects), nrej_expected))
+    nrej = sum(1 for x in rejects if x["why"] in ("load-error", "panic", "render_panic"))
+    if nrej != nrej_expected:
+        vlib.tool_error("%s: TLC rejected %d runs but %d recorded runs end in a loader refusal or a panic" % (name, nrej, nrej_expected))
     for rej in rejects:
         rec = recs[rej["rec"] - 1]
         case = cases[rej["rec"] - 1] if cases else None
         if rej["why"] in ("panic", "render_panic"):
             run.panics.append((rej, rec))       # not an accepted program: C07's business, reported as a note
+            continue
+        if rej["why"] in ("output-mismatch", "run-failed") and rej["u"] == "lex":
+            # the chunk loaded, but it is not the program's chunk: running it does not print the bytes of the literal
+            i = rej["id"]
+            what = "lex %s: compiled and loaded, but the run %s: expected %s, printed %s" % (
+                json.dumps(i, sort_keys=True), "prints other bytes than the literal holds" if rej["why"] == "output-mismatch"
+                else "ended with " + rej["cls"], json.dumps(case["expect"])[:120], json.dumps(rec.get("out", "-"))[:120])
+            verdicts.add("C06|bytes|%s|%s|%s|%s" % (i["fam"], i["a"], i["b"], rej["why"]), what,
+                         {"universe": "lex", "case": case, "observed": {"ev": rec["ev"], "out": rec.get("out", "-"), "detail": rec.get("detail", "")}})
+            run.byte_rejects += 1
             continue
         if rej["why"] != "load-error":
             vlib.tool_error("%s: unexpected reject class %r at record %d (recorder / protocol problem)" % (name, rej["why"], rej["rec"]))
@@ -215,6 +230,19 @@ def negative_controls(wd, ctx, cases, recs, tf):
     v, _ = validate(wd, "neg-text", btf, workers=1)
     if v.ok:
         vlib.tool_error("negative control accepted: a record with an altered source text passed the universe check")
+    # (g) a run whose output is not the literal's bytes / a case with a byte expectation that finishes without a run
+    runix = [i for i, r in enumerate(recs) if any(e["e"] == "run" for e in r["ev"]) and "@U" in r["out"]]
+    if len(runix) < 3:
+        vlib.tool_error("negative control impossible: fewer than 3 runs printed a control character")
+    bad = json.loads(json.dumps([recs[i] for i in runix[:3]]))
+    bad[0]["out"] = bad[0]["out"].replace("@U", "\\", 1).replace("@", "", 1)       # what an escape that was not read would print
+    bad[1]["ev"] = [e for e in bad[1]["ev"] if e["e"] != "run"]
+    vlib.write_ndjson(btf, bad)
+    v, rej = validate(wd, "neg-run", btf, workers=1)
+    vlib.require_tlc_ok(v, "negative control (altered output / dropped run)")
+    if [(x["rec"], x["why"]) for x in rej] != [(1, "output-mismatch"), (2, "finish-before-run")]:
+        vlib.tool_error("negative control accepted: an altered output or a dropped run was not rejected (%s)" % rej)
+    n += 2
     # (f) a trace that misses a case must fail the completeness assumption
     mtf = os.path.join(wd, "neg-missing-trace.ndjson")
     vlib.write_ndjson(mtf, recs[:7] + recs[8:])
@@ -287,8 +315,8 @@ def run(ctx):
     for (_, c) in e.records:
         byidx.setdefault(c["idx"], c)
     cases = [byidx[i] for i in sorted(byidx)]
-    if [c["idx"] for c in cases] != list(range(1, len(cases) + 1)) or len(cases) < 4000 or e.coverage.get("Emit", (0, 0))[1] < len(cases):
-        vlib.tool_error("vacuity: %d cases emitted (indices not 1..N, or fewer than 1500), Emit fired %s times" % (len(cases), e.coverage.get("Emit")))
+    if [c["idx"] for c in cases] != list(range(1, len(cases) + 1)) or len(cases) < 8000 or e.coverage.get("Emit", (0, 0))[1] < len(cases):
+        vlib.tool_error("vacuity: %d cases emitted (indices not 1..N, or fewer than 8000), Emit fired %s times" % (len(cases), e.coverage.get("Emit")))
 
     # 3. conformance of the lexical universe: record, then TLC re-derives every case and validates every run
     tf, recs = record(wd, "lex", "record", cases)
@@ -298,10 +326,17 @@ def run(ctx):
     if not uni or uni[0]["ncases"] != len(cases) or uni[0]["records"] != len(cases):
         vlib.tool_error("universe size mismatch: TLC derives %s, %d cases were emitted" % (uni[:1], len(cases)))
     lex_cnt = judge(run_, verdicts, "lex", recs, cases, v, rejects)
-    for a in TRACE_ACTIONS + ("TraceRetErr", "TraceRender"):
+    for a in TRACE_ACTIONS + ("TraceRetErr", "TraceRender", "TraceRun"):
         if v.coverage.get(a, (0, 0))[1] == 0:
             vlib.tool_error("vacuity: trace action %s never fired on the lexical universe" % a)
     fam_sizes = vacuity_lex(cases, recs)
+    # every case with a byte expectation that loaded was run, and most of them exist and load
+    need = [(c, r) for c, r in zip(cases, recs) if c["expect"] != "-"]
+    ran = [(c, r) for c, r in need if any(e["e"] == "run" for e in r["ev"])]
+    if len(need) < 1000 or len(ran) * 10 < len(need) * 8 or any(outcome(r) == "ok" and (c, r) not in ran for c, r in need[:50]):
+        vlib.tool_error("vacuity: %d cases carry a byte expectation, only %d of them were run" % (len(need), len(ran)))
+    if v.coverage.get("TraceRun", (0, 0))[1] + run_.byte_rejects < len(ran):
+        vlib.tool_error("vacuity: %d chunks were run but TLC compared only %d outputs" % (len(ran), v.coverage.get("TraceRun", (0, 0))[1]))
 
     # 4. the other universes: corpus (all files), C01 universe (sample in quick)
     ctf, crecs = record(wd, "corpus", "corpus", None)
@@ -352,6 +387,7 @@ def run(ctx):
            traces_validated_against_impl=run_.validated,
            programs=total, evaluations=total, distinct_nontrivial=len(run_.accepted_keys), chunks_loaded=run_.loaded,
            universe_cases=len(cases), cases_per_family=fam_sizes, outcome_counts=run_.counts,
+           chunks_run_and_output_compared=run_.ran,
            rejected_by_compiler=sum(c.get("rejected", 0) for c in run_.counts.values()),
            compiler_panics=len(run_.panics), load_refusals_by_family_and_class=loaderr_by_class,
            c01_universe_programs=len(sem_all), c01_universe_validated=len(sem_cases), corpus_files=len(crecs),
